@@ -24,7 +24,12 @@ Record ccase := mkcase {
   c_p : nat;                    (* npulses *)
   c_acc : bool;                 (* DiskChopper(...) was constructed *)
   c_times : option (list Q * list Q * list Q);   (* open, close, duration in s; None = ValueError (ratio) *)
-  c_casc : option (list Q * list Q)              (* cascade time_open, time_close in s; None = not compared *)
+  c_casc : option (list Q * list Q);             (* cascade time_open, time_close in s; None = not compared *)
+  c_fs : Q;                     (* frequency as stored (its own unit) *)
+  c_ps : Q;                     (* pulse frequency as stored (its own unit) *)
+  c_conv : Q;                   (* pulse-frequency unit / frequency unit *)
+  c_pint : bool;                (* pulse frequency has an integer dtype *)
+  c_terr : bool                 (* the time methods raised something other than ValueError *)
 }.
 
 Definition flag (ok : bool) (why : string) : string := if ok then EmptyString else (why ++ ",")%string.
@@ -156,6 +161,10 @@ Definition model_cascade (cfix : bool) (c : ccase) (n : Z) : list (Q * Q) :=
   if cfix then cascade_fixed (disk_of c) n (pulses_per_rotation (c_f c) (c_fp c)) (c_p c)
   else cascade_current (disk_of c) (c_fp c) n (c_p c).
 
+Definition R_rounded : string := "ratio-int-pulse-frequency-rounded,"%string.
+Definition R_terr : string := "times-raise-unexpected-error,"%string.
+Definition R_acc : string := "ratio-accepted-model-rejects,"%string.
+Definition R_rej : string := "ratio-rejected-model-accepts,"%string.
 (* vfix / cfix: which variant of the validation / of the cascade expansion the tree was found to implement *)
 Definition check (vfix cfix : bool) (c : ccase) : string :=
   let sl := c_slits c in
@@ -166,13 +175,24 @@ Definition check (vfix cfix : bool) (c : ccase) : string :=
           (if check_edges_current sl then "validation-accepts-wrap-overlap" else "validation-accepts-overlap")
      ++ flag (negb (negb (c_acc c) && sv)) "validation-rejects-disjoint-slits"
      ++ flag (Bool.eqb (c_acc c) (model_valid vfix sl)) "validation-differs-from-model")%string in
+  let qc := quot_coded (c_fs c) (c_ps c) (c_conv c) (c_pint c) in
+  (* an integer-dtype pulse frequency whose unit conversion is not exact: the code as found rounds it first *)
+  let rounded := c_pint c && negb (Qeq_bool (convert_stored true (c_ps c) (c_conv c)) (c_ps c * c_conv c)) in
+  let blame (generic : string) (impl_accepts : bool) : string :=
+    if rounded && Bool.eqb impl_accepts (coded_accepts qc) then R_rounded else generic in
   if negb (c_acc c) then v
+  else if c_terr c then
+    (v ++ (if rounded && match qc with None => true | Some _ => false end
+           then R_rounded else R_terr))%string
   else
     match source_phase_factor (c_f c) (c_fp c), c_times c with
     | None, None => v
-    | None, Some _ => (v ++ "ratio-accepted-model-rejects,")%string
-    | Some _, None => (v ++ "ratio-rejected-model-accepts,")%string
+    | None, Some _ => (v ++ blame R_acc true)%string
+    | Some _, None => (v ++ blame R_rej false)%string
     | Some n, Some (o, cl, du) =>
+      if rounded && negb (match coded_repetitions qc with Some m => Z.eqb m n | None => false end)
+      then (v ++ R_rounded)%string      (* both accept, different repetitions *)
+      else
         let d := disk_of c in
         let t :=
           (flag (close_list c o (opens d n)) "open-times-differ-from-model"
